@@ -165,6 +165,8 @@ def job_class(ctx: Ctx, cfg, scalar=False, inverse_wrap=False):
     ctx.paths += len(paths)
     for p in paths:
         if p.exc is not None:
+            if ctx.twin(p.pc, "forward:exception-path") == "unsat":
+                continue        # the explorer's short feasibility budget left this branch open; the twin query refutes it
             ctx.fail("forward:no-exception", f"{type(p.exc).__name__}: {p.exc}", key=key + ":raises", replay=None)
             continue
         ctx.twin(p.pc, "forward")
@@ -187,6 +189,8 @@ def job_class(ctx: Ctx, cfg, scalar=False, inverse_wrap=False):
     ctx.paths += len(paths)
     for p in paths:
         if p.exc is not None:
+            if ctx.twin(p.pc, "backward:exception-path") == "unsat":
+                continue        # the explorer's short feasibility budget left this branch open; the twin query refutes it
             ctx.fail("backward:no-exception", f"{type(p.exc).__name__}: {p.exc}", key=key + ":raises")
             continue
         ctx.twin(p.pc, "backward")
@@ -212,6 +216,8 @@ def job_class(ctx: Ctx, cfg, scalar=False, inverse_wrap=False):
     ctx.paths += len(paths)
     for p in paths:
         if p.exc is not None:
+            if ctx.twin(p.pc, "monotone:exception-path") == "unsat":
+                continue        # the explorer's short feasibility budget left this branch open; the twin query refutes it
             ctx.fail("monotone:no-exception", f"{type(p.exc).__name__}: {p.exc}", key=key + ":raises")
             continue
         da, db = p.result
@@ -367,8 +373,7 @@ def jobs(tier):
     js = []
     for cfg in configs(tier):
         js.append(Job(cfg["name"], job_class, cfg))
-        stuck = cfg["cls"] == "HandyModRTransform" and cfg["fk"] == 2      # z3 does not return on deriv3_inverse of the wrapped m = 2 map (timeout ignored inside nlsat): excluded, stated
-        if (tier == "thorough" or cfg["fk"] in (None, 1)) and not stuck:
+        if tier == "thorough" or cfg["fk"] in (None, 1):
             js.append(Job(cfg["name"] + "/InverseRTransform", job_class, cfg, inverse_wrap=True))
         js.append(Job(cfg["name"] + "/end-points", job_endpoints, cfg, True))
         if tier == "thorough" and cfg["cls"] in ("BeckeRTransform", "MultiExpRTransform", "KnowlesRTransform", "HandyRTransform", "HandyModRTransform"):
@@ -391,7 +396,7 @@ def main():
         bounds=dict(classes=12, integer_exponents="k,m in 1..4 (quick) / 1..6 (Knowles, Handy), 1..3 / 1..5 (HandyMod)", x="one symbolic interior point per call (arrays of length 1 and 2)",
                     parameters="all reals under the documented precondition; HandyMod additionally rmax-rmin > 2^m-1"),
         outside=["non-integer exponents k, m (general real power)", "derivatives / inverses evaluated exactly on the domain boundary",
-                 "IEEE rounding: float arithmetic is read as exact real arithmetic", "HandyMod with rmax-rmin <= 2^m-1 (denominator vanishes inside the domain)", "InverseRTransform(HandyModRTransform(m=2)) (solver does not terminate); m = 1, 3, 4, 5 wrapped are decided"],
+                 "IEEE rounding: float arithmetic is read as exact real arithmetic", "HandyMod with rmax-rmin <= 2^m-1 (denominator vanishes inside the domain)"],
         assumptions=["denominators of the executed expressions are non-zero (identities claimed where the implementation's expression is defined)",
                      "exp/log are mutually inverse strictly monotone functions (axioms listed in symgrid/smt.py)"])
 
